@@ -31,7 +31,9 @@ class RaiseClause:
 
 class LoopSpec:
     def __init__(self, ordinal, index=None, invariants=None, modifies=None, variant=None,
-                 unroll=None, elem_ty=None, summarize=False):
+                 unroll=None, elem_ty=None, summarize=False, complete=False):
+        self.complete = complete            # the loop never leaves through `break`: every element
+                                            # is visited (obligation loop-runs-to-completion)
         self.elem_ty = elem_ty              # element type of a comprehension's result
         self.summarize = summarize          # modular cut: body/continuation explored once
         self.ordinal = ordinal
@@ -154,10 +156,11 @@ class Contract:
         return self
 
     def loop(self, ordinal, index=None, invariants=None, modifies=None, variant=None,
-             unroll=None, props=None, elem_ty=None, summarize=False):
+             unroll=None, props=None, elem_ty=None, summarize=False, complete=False):
         invs = [Clause(l, s, props or self.props) for l, s in (invariants or [])]
         self.loops[ordinal] = LoopSpec(ordinal, index, invs, list(modifies or []), variant,
-                                       unroll, elem_ty, summarize)
+                                       unroll, elem_ty, summarize, complete)
+        self.loops[ordinal].props = list(props or self.props)
         return self
 
     def note(self, text):
